@@ -542,9 +542,13 @@ func genVideoCalls(T *Tape, g *muxGen, c *muxCfg, ts *trackSpec, _ []*writeCall,
 			if den == 0 {
 				den = 6
 			}
-			if g.paramChanges && firstKeyDone && T.Chance(1, den) {
+			// (the very first key frame may also carry parameter sets that differ from the ones the Track was configured with)
+			if g.paramChanges && (firstKeyDone || T.Chance(1, 2)) && T.Chance(1, den) {
 				variant++
 				p = videoParamVariantR(ts.kind, T.Intn(4)+4*variant, ts.reorder)
+				if T.Chance(1, 3) {
+					p = changeOneField(ts.kind, cur, T.Intn(12))
+				}
 				if !p.equal(cur) {
 					changed = true
 					inband = true
@@ -556,6 +560,9 @@ func genVideoCalls(T *Tape, g *muxGen, c *muxCfg, ts *trackSpec, _ []*writeCall,
 			// parameter sets arriving in a non-random-access unit: pending until the next key frame
 			variant++
 			p = videoParamVariantR(ts.kind, T.Intn(4)+4*variant, ts.reorder)
+			if T.Chance(1, 3) {
+				p = changeOneField(ts.kind, cur, T.Intn(12))
+			}
 			if !p.equal(cur) {
 				changed = true
 				inband = true
